@@ -205,7 +205,7 @@ def user_class_scenario(layout):
         self.parent = parent
         for k, v in kw.items():
             setattr(self, k, v)
-    classes = [type(n, (object,), {'__init__': init}) for n in (['Box', 'Item'] if layout != 'generic' else [])]
+    classes = [type(n, (object,), {'__init__': init}) for n in (['Box', 'Item'] if layout.startswith('user') else [])]
     tmp = tempfile.mkdtemp(prefix='c06u_')
     problems = []
     try:
@@ -214,6 +214,11 @@ def user_class_scenario(layout):
                 f.write(text)
         mm = metamodel_from_str(UC_GRAMMAR, classes=classes)
         mm.register_scope_providers({'*.*': P.PlainNameImportURI()})
+        if layout.endswith('+processors'):
+            # object processors: one returns nothing, one replaces an item by the (already existing) item it
+            # refers to — the surviving objects keep their own spans
+            mm.register_obj_processors({'Box': lambda b: None,
+                                        'Item': lambda it: it.to if it.name in ('c', 'y') else None})
         main = mm.model_from_file(os.path.join(tmp, 'main.m'))
         models = {os.path.basename(m._tx_filename): m for m in main._tx_model_repository.all_models}
         models['main.m'] = main
@@ -283,11 +288,11 @@ def main():
             chk.violation('grammar %s, input %r%s: %s' % (v['grammar'], v['text'],
                                                          ' (from file)' if v['from_file'] else '', v['detail']), v)
         chk.sample({'grammar': r['grammar'], 'n': r['n'], 'models_checked': r['witnesses']})
-    for layout in ('generic', 'user-classes'):
+    for layout in ('generic', 'user-classes', 'generic+processors', 'user-classes+processors'):
         for pr in user_class_scenario(layout)[:2]:
             chk.violation('two-file load, %s: %s' % (layout, pr), {'user_class_scenario': layout})
         wit += 2
-    chk.cov['bounds']['two_file_scenario'] = 'main.m imports lib.m, generic classes and user classes (concrete)'
+    chk.cov['bounds']['two_file_scenario'] = 'main.m imports lib.m, generic classes and user classes, without and with object processors (one replacing an object by an existing one) (concrete)'
     chk.cov['witness_replays'] = wit
     chk.cov['evaluations'] = max(chk.cov['evaluations'], wit)
     chk.cov['distinct_nontrivial'] = wit
